@@ -32,3 +32,25 @@ def validate(wd, module, cfg_tmpl, consts, traces, timeout=900, tag="TRACE", hea
         if x["len"] != len(traces[i]):
             raise MachineryError("%s: trace %d consumed %d of %d events" % (module, i, x["len"], len(traces[i])))
     return out, r
+
+
+def validate_strict(wd, module, cfg_tmpl, consts, traces, timeout=1800, heap="8g"):
+    """Strict validation: each trace must be a behaviour of the implementation-shaped spec.  Returns a
+    list (index-aligned) of (explained_prefix_length, trace_length)."""
+    if not traces:
+        return []
+    tf = wd.file(module + "-traces.json")
+    with open(tf, "w") as f:
+        json.dump(traces, f, separators=(",", ":"))
+    tmpl = open(os.path.join(tlc.SPEC_DIR, cfg_tmpl)).read()
+    cfg = wd.write(module + "-run.cfg", tmpl % consts)
+    r = tlc.run(wd, module + ".tla", os.path.basename(cfg), workers=1, timeout=timeout, env={"TRACE_FILE": tf}, dfs=True, heap=heap)
+    tlc.need_ok_run(r, module + " strict trace validation")
+    out = [None] * len(traces)
+    for v in tlc.printed_values(r, "STRICT"):
+        _, tid, reached, n = v
+        out[tid - 1] = (reached, n)
+    missing = [i for i, x in enumerate(out) if x is None]
+    if missing:
+        raise MachineryError("%s: no progress report for traces %s\n%s" % (module, missing[:5], r.out[-2000:]))
+    return out
